@@ -65,12 +65,22 @@ impl Canon {
         self.next_token += 1;
         format!("{}", 1000 + self.next_token)
     }
+    /// content-derived token (FNV-1a), stable across runs and processes
+    pub fn content_token(d: &[u8]) -> String {
+        let mut h: u64 = 0xcbf29ce484222325;
+        for b in d {
+            h ^= *b as u64;
+            h = h.wrapping_mul(0x100000001b3);
+        }
+        h ^= d.len() as u64;
+        format!("{}", 1_000_000 + (h % 1_000_000_000_000_000))
+    }
     /// one token per distinct chunk content (so identical uploads get identical tokens)
     pub fn chunk_token(&mut self, chunk: &[u8]) -> String {
         if let Some(t) = self.chunk_tokens.get(chunk) {
             return t.clone();
         }
-        let t = self.fresh_token();
+        let t = Self::content_token(chunk);
         self.chunk_tokens.insert(chunk.to_vec(), t.clone());
         t
     }
